@@ -5,6 +5,7 @@ import (
 	"container/list"
 	"io"
 	"net/mail"
+	"sync/atomic"
 	"time"
 
 	"github.com/inbucket/inbucket/v3/pkg/storage"
@@ -20,7 +21,7 @@ type Message struct {
 	date    time.Time
 	subject string
 	source  []byte
-	seen    bool
+	seen    atomic.Bool   // Read by listers without the mailbox lock.
 	el      *list.Element // This message in Store.messages
 	gone    bool          // Removed before the size enforcer registered it; owned by the enforcer.
 }
@@ -54,4 +55,4 @@ func (m *Message) Source() (io.ReadCloser, error) {
 func (m *Message) Size() int64 { return int64(len(m.source)) }
 
 // Seen returns the message seen flag.
-func (m *Message) Seen() bool { return m.seen }
+func (m *Message) Seen() bool { return m.seen.Load() }
